@@ -79,7 +79,7 @@ SPEC = {
 
 CLAIM = {
     "category": "proof",
-    "text": "Lean theorems about the model `canon` (a step-by-step mirror of transform_productions: extract_options, then the loop separate_alternatives ; eliminate_repetitions (LL and LALR variants) ; eliminate_options ; eliminate_groups, generate_name with its numeric-suffix rule, finalize): every step preserves YieldE for all factor strings that do not mention the new helper (step_preserves_lang family), canon_preserves_lang (for ALL EBNF grammars and both grammar types, whenever the start symbol is defined or used), generate_name_not_mem, helper_fresh. Tied to the code by exact differential runs through the real PAR front end; every implementation reply is also judged by the oracle (member on all strings ≤ n, helper-name clash detector).",
+    "text": "Lean theorems about the model `canon` (a step-by-step mirror of transform_productions: extract_options, then the loop separate_alternatives ; eliminate_repetitions (LL and LALR variants) ; eliminate_options ; eliminate_groups, generate_name with its numeric-suffix rule, finalize): every step preserves YieldE for all factor strings that do not mention the new helper (step_preserves_lang family), canon_preserves_lang (for ALL EBNF grammars and both grammar types, whenever the start symbol is defined or used), generate_name_not_mem, generate_name_total (the |exclusions|+1 candidates always contain a free name), helper_fresh. Termination of the transformation loops is not proved (the model takes fuel; `fuel-exhausted` was never observed). Tied to the code by exact differential runs through the real PAR front end; every implementation reply is also judged by the oracle (member on all strings ≤ n, helper-name clash detector).",
     "design_ref": "DESIGN.md §6 C09",
     "note": "Trusted: Lean kernel, faithfulness of the hand-written model as observed by the differential run, harness (PAR rendering of the encoded grammar) and orchestrator. New finding F19 (start symbol missing from variable_names) is reproduced on its witnesses on every run and proved as canon_start_clash_counterexample.",
     "technique": "Lean 4 proof over hand-written model + differential correspondence check",
